@@ -36,6 +36,73 @@ PROPS = {
         "exhaustive_note": "exhaustive in the top 19 bits and in every 5-digit window; not exhaustive over 2^64",
         "assumptions": ["reference predicate equals the documented layout", "faults needing >=4 specific non-adjacent digit positions under one base cell are not excluded"],
     },
+    "C02": {
+        "sources": KIT + ["mon_C02.c"],
+        "phases": simple("mon_C02.c"),
+        "level": "exploration",
+        "level_text": "Every returned cell is judged geometrically (gnomonic crossing-number containment of the point in cellToBoundary, angular distance when outside, the property's own tolerance) "
+                      "for adversarial points: 1e-1..1e-12 cell widths on both sides of every boundary segment at 5 parameters and around every vertex of cells in all special "
+                      "neighbourhoods (12 pentagons, 30 icosahedron edges, 20 face centres, poles, antimeridian) and random cells at all 16 resolutions; points on/next to icosahedron "
+                      "edges and vertices; latitudes pi/2-10^-k and longitudes +-pi-+10^-k, +-2pi; uniform points; arbitrary finite / non-finite doubles and bad resolutions. Sampled, "
+                      "not all doubles.",
+        "level_note": "Trusted base: long-double spherical geometry of the oracle (vf_kit.c); cellToBoundary/cellToLatLng outputs define the cell (their mutual consistency is C08's business).",
+        "technique": "runtime monitoring: geometric containment oracle (gnomonic chart, long double) over adversarially placed points, under ASan/UBSan",
+        "evaluations": ["points.judged_containment", "points.arbitrary_finite", "points.rejected"],
+        "rule": "a case is one (lat, lng, res) triple. Non-trivial = canonical-range point closer than 1e-3 cell widths to the returned cell's boundary, or a rejected (non-finite / bad resolution) "
+                "input; distinct by hash of the two doubles' bits and the resolution.",
+        "require": {"points.judged_containment": {"quick": 1000000, "thorough": 20000000}, "points.near_boundary": 500000, "points.rejected": 1000, "points.arbitrary_finite": 1000, "cells.around": 1000},
+        "assumptions": ["cellToBoundary vertices joined by great-circle arcs are the cell (as the property states)", "tolerance exactly as stated in the property"],
+    },
+    "C03": {
+        "sources": KIT + ["mon_C03.c"],
+        "phases": [{"name": "main", "config": "plain"}, {"name": "san", "config": "asan"}],
+        "level": "exploration",
+        "level_text": "Every spec-valid cell of resolutions 0-5 (quick) / 0-7 (thorough, 98.8M cells at res 7) is produced by an enumerator written from the documented "
+                      "layout and pushed through cellToLatLng -> latLngToCell; the number enumerated is compared with getNumCells and the closed form; pentagon and "
+                      "res-0 lists are compared with reference lists at all 16 resolutions. Finer resolutions are covered completely only within 6 steps of the "
+                      "twelve pentagons and around icosahedron edges / face centres / poles / antimeridian, and by stratified random cells, under ASan+UBSan.",
+        "level_note": "Trusted base: the reference enumerator (digit counting with the pentagon skip rule) and the documented pentagon base cell list.",
+        "technique": "runtime monitoring: complete enumeration of coarse resolutions from a documentation-derived enumerator, round-trip identity and count oracles, sanitizers on the special neighbourhoods",
+        "evaluations": ["roundtrips"],
+        "rule": "a case is one valid cell (centre round trip + 45 single-digit perturbations of it through isValidCell); cells come from the reference enumerator "
+                "(whole resolutions), gridDisk(6) around the 12 pentagons and gridDisk(2) around icosahedron-edge/face-centre/pole/antimeridian seeds at "
+                "res 0-15, and stratified random cells. Non-trivial = every valid cell; distinct by cell index (whole-resolution sweeps beyond the perturbation "
+                "depth are sampled 1/1024 into the distinct set).",
+        "require": {"roundtrips": {"quick": 2000000, "thorough": 100000000}, "whole_resolutions": {"quick": 6, "thorough": 8}, "special.cells": 10000, "counts.res_checked": 16},
+        "exhaustive": True,
+        "exhaustive_note": "exhaustive for resolutions 0-5 (quick) / 0-7 (thorough); sampled beyond",
+        "assumptions": ["reference enumerator equals the documented layout", "resolutions finer than the exhaustive ones are covered near pentagons/face edges/poles/antimeridian and by sampling only"],
+    },
+    "C04": {
+        "sources": KIT + ["mon_C04.c"],
+        "phases": simple("mon_C04.c"),
+        "level": "exploration",
+        "level_text": "cellToChildren output is compared element-wise with an independent enumerator for every cell of resolutions 0-2 at several depths, every pentagon of every "
+                      "resolution at every depth that fits the cap, pentagon children that leave the centre chain at every level and random hexagons at all resolutions; every "
+                      "child is sent back through cellToParent; the converse (membership at the reference rank under every ancestor) is checked for sampled cells down to res 15. "
+                      "ASan+UBSan with exact-size child arrays. Not all (cell, childRes) pairs.",
+        "level_note": "Trusted base: reference child enumerator/rank (vf_kit.c). Centre coincidence uses C02's tolerance.",
+        "technique": "runtime monitoring: element-wise comparison with a documentation-derived child enumerator under ASan/UBSan with exact-size buffers",
+        "evaluations": ["children.cases", "ancestor.pairs", "errors.calls"],
+        "rule": "cases: (cell, childRes) child lists, (cell -> every ancestor) membership chains, (cell, hostile resolution) error codes. Non-trivial = child list with >1 child, or a chain "
+                "from a cell of res>0; distinct by hash of (cell, childRes).",
+        "require": {"children.cases": 5000, "children.cells": 1000000, "ancestor.pairs": 10000, "errors.rejected": 1000},
+        "assumptions": ["reference enumerator equals the documented digit layout"],
+    },
+    "C13": {
+        "sources": KIT + ["mon_C13.c"],
+        "phases": simple("mon_C13.c"),
+        "level": "exploration",
+        "level_text": "Both directions are compared with an independent rank/unrank on digit arithmetic for every pentagon parent at every (parentRes, childRes) pair (136 pairs x 12) at positions "
+                      "0, 1, last, every boundary of the pentagon/hexagon offset formulas +-1 at each level, out-of-range and INT64 extremes, plus random positions; descendants that leave the "
+                      "pentagon chain at each level are ranked under every ancestor; position i == cellToChildren[i] for all lists that fit; random hexagon parents. ASan+UBSan.",
+        "level_note": "Trusted base: reference rank/unrank (vf_kit.c).",
+        "technique": "runtime monitoring: differential execution against an independent rank/unrank model under ASan/UBSan",
+        "evaluations": ["pos.calls", "rank.calls", "list.positions", "errors.calls"],
+        "rule": "cases: (parent, childRes, position), (child, parentRes), whole child lists, hostile resolutions. Non-trivial = family with >1 child or out-of-range position or child strictly finer than the parent; distinct by hash of the triple.",
+        "require": {"pos.calls": 50000, "pos.out_of_range": 1000, "rank.calls": 10000, "list.positions": 100000, "errors.rejected": 500},
+        "assumptions": ["reference rank/unrank equals the documented child order"],
+    },
     "C20": {
         "sources": KIT + ["mon_C20.c"],
         "phases": simple("mon_C20.c"),
